@@ -246,7 +246,8 @@ def read_meta_image_from_fileobj(f: io.BufferedReader) -> Tuple[np.ndarray, Meta
         ):
             meta[key] = np.array(value.split(), dtype=float)
         elif key in ("Orientation", "Rotation", "TransformMatrix"):
-            meta[key] = np.array(value.split(), dtype=float).reshape(3, 3).transpose()
+            ndims = int(meta_in.get("NDims", 3))
+            meta[key] = np.array(value.split(), dtype=float).reshape(ndims, ndims).transpose()
         elif key in ("DimSize", "SequenceID"):
             meta[key] = np.array(value.split(), dtype=int)
         elif key in ("ElementMin", "ElementMax"):
